@@ -122,7 +122,8 @@ def pen_value_1d(h, pen, t, j, p):
 XCAT = {
     'corr32': [[1, 1], [1, 2], [0, 1]],          # strongly correlated columns (needed for F11)
     'gen32': [[1, 0], [2, 1], [-1, 1]],          # generic full rank, negative entry
-    'orth22': [[1, 1], [1, -1]],                 # orthogonal, equal norms
+    'orth22': [[1, 1], [1, -1]],
+    'tri22': [[1, 0], [1, 1]],                   # square, correlated columns                 # orthogonal, equal norms
     'wide23': [[1, 2, 0], [0, 1, 1]],            # n < p
     'dup32': [[1, 1], [2, 2], [1, 1]],           # duplicated column
     'zero_last32': [[1, 0], [2, 0], [1, 0]],     # all-zero column (last)
@@ -130,7 +131,7 @@ XCAT = {
     'const32': [[1, 1], [1, 2], [1, 4]],         # constant column
     'single31': [[1], [2], [-1]],
     'col21': [[1], [2]],                         # with an intercept column: square invertible                # single feature
-    'scale32': [[1000, 0.001], [2000, 0.002], [1000, -0.001]],   # widely different scales
+    'scale32': [[1024, 2 ** -10], [2048, 2 ** -9], [1024, -2 ** -10]],   # widely different scales (dyadic: exact in floats)
 'inv33': [[1, 0, 1], [2, 1, 0], [-1, 1, 1]],   # square, invertible
     'gen43': [[1, 0, 2], [2, 1, 0], [-1, 1, 1], [0, 2, -1]],
     'corr33': [[1, 1, 0], [1, 2, 1], [0, 1, 1]],
@@ -152,3 +153,26 @@ def finite_or_flag(h, v):
     if h.mode == 'sym':
         return _isinf(v), v
     return (not np.isfinite(v)), v
+
+
+def dderiv(h, f, base, direction, shape=None, onesided=False):
+    """directional derivative of the scalar function f at the array ``base`` along ``direction``.
+    symbolic mode: dual numbers through the real code (exact, one-sided at kinks);
+    concrete replay: central finite difference (confirmation only)."""
+    if h.mode == 'sym':
+        from vf.dual import Dual, tangent
+        flat = [Dual(b, d) if not (isinstance(d, (int, float)) and d == 0) else b for b, d in zip(base, direction)]
+        arr = h.arr(flat)
+        if shape is not None:
+            arr = arr.reshape(shape)
+        return tangent(f(arr))
+    b = np.asarray(base, dtype=float)
+    d = np.asarray(direction, dtype=float)
+    e = 1e-6 * (1.0 + float(np.max(np.abs(b))) if b.size else 1e-6)
+    bp, bm = b + e * d, b - e * d
+    if shape is not None:
+        bp, bm = bp.reshape(shape), bm.reshape(shape)
+    if onesided:
+        b0 = b.reshape(shape) if shape is not None else b
+        return (f(bp) - f(b0)) / e
+    return (f(bp) - f(bm)) / (2 * e)
